@@ -1,6 +1,7 @@
 package main
 
 import (
+	"encoding/json"
 	"fmt"
 	"math/rand"
 	"strings"
@@ -36,7 +37,9 @@ type pendingUpload struct {
 	idx     int
 	bucket  string
 	payload []byte
-	sent    int // bytes the generator believes the server holds
+	sent    int  // bytes the generator believes the server holds
+	badMd5  bool // the session declared a wrong / invalid MD5: finishing fails and the session stays alive
+	retries int  // finishing attempts made on such a session
 }
 
 func (g *histGen) pick(xs []string) string { return xs[g.rng.Intn(len(xs))] }
@@ -144,7 +147,7 @@ func (g *histGen) upload() {
 			md = 1 + g.rng.Intn(2)
 		}
 		g.add(Req{Kind: "resumable_init", B: b, Up: &UpMeta{Name: n, CType: g.pick(ctypes), Md5: md, Meta: g.meta()}, Data: data, CP: g.conds(b, n)})
-		g.pending = append(g.pending, pendingUpload{idx: g.inits, bucket: b, payload: data})
+		g.pending = append(g.pending, pendingUpload{idx: g.inits, bucket: b, payload: data, badMd5: md == 2 || md == 3})
 		g.inits++
 		// usually continue the session right away
 		for k := g.rng.Intn(4); k > 0 && len(g.pending) > 0; k-- {
@@ -155,6 +158,18 @@ func (g *histGen) upload() {
 
 // resume issues one PUT of a pending session: next chunk, a re-sent / overlapping range, a status
 // query, the finalising request, or (rarely) a malformed one.
+// finished: the session's last byte was sent.  A session that declared a wrong MD5 is refused at
+// that point and stays alive on the server: it is kept for a few more finishing attempts (re-sent
+// final range, status query), each of which must be refused again.
+func (g *histGen) finished(pi int) {
+	p := &g.pending[pi]
+	if p.badMd5 && p.retries < 3 {
+		p.retries++
+		return
+	}
+	g.pending = append(g.pending[:pi], g.pending[pi+1:]...)
+}
+
 func (g *histGen) resume() {
 	if len(g.pending) == 0 {
 		return
@@ -181,7 +196,7 @@ func (g *histGen) resume() {
 		g.add(Req{Kind: "resumable_put", B: p.bucket, ID: id, CRange: hdr(p.sent, p.sent+n-1, tot), Data: p.payload[p.sent : p.sent+n]})
 		p.sent += n
 		if last {
-			g.pending = append(g.pending[:pi], g.pending[pi+1:]...)
+			g.finished(pi)
 		}
 	case c < 7 && p.sent > 0: // re-send a range that starts at or before what is held
 		lo := g.rng.Intn(p.sent)
@@ -193,14 +208,14 @@ func (g *histGen) resume() {
 		g.add(Req{Kind: "resumable_put", B: p.bucket, ID: id, CRange: hdr(lo, lo+n-1, tot), Data: p.payload[lo : lo+n]})
 		p.sent = lo + n
 		if last {
-			g.pending = append(g.pending[:pi], g.pending[pi+1:]...)
+			g.finished(pi)
 		}
 	case c < 9: // status query / finalise with empty body
 		s := "bytes */*"
 		if g.rng.Intn(2) == 0 {
 			s = fmt.Sprintf("bytes */%d", total)
 			if p.sent >= total {
-				g.pending = append(g.pending[:pi], g.pending[pi+1:]...)
+				g.finished(pi)
 			}
 		}
 		g.add(Req{Kind: "resumable_put", B: p.bucket, ID: id, CRange: &s})
@@ -488,8 +503,72 @@ func genHist(prop, out, tier string, rng *rand.Rand, oracle string) {
 		for _, mk := range stores() {
 			tasks = append(tasks, Task{mk, "no-name", noName, true})
 		}
+		// directed: a resumable upload whose declared MD5 does not match is refused at its last byte, and
+		// again at every further attempt to finish the same session; the previous object stays
+		for _, md := range []int{2, 3} {
+			pay := []byte("new-content")
+			whole := fmt.Sprintf("bytes 0-%d/%d", len(pay)-1, len(pay))
+			tail := fmt.Sprintf("bytes 4-%d/%d", len(pay)-1, len(pay))
+			status := fmt.Sprintf("bytes */%d", len(pay))
+			prog := []Req{
+				{Kind: "upload_media", B: "bkt", N: "obj", CType: "text/plain", Data: []byte("old"), CP: noConds},
+				{Kind: "resumable_init", B: "bkt", Up: &UpMeta{Name: "obj", CType: "text/new", Md5: md}, Data: []byte("declared-for-other-bytes"), CP: noConds},
+				{Kind: "resumable_put", B: "bkt", ID: "#0", CRange: &whole, Data: pay},
+				{Kind: "get_media", B: "bkt", N: "obj"},
+				{Kind: "resumable_put", B: "bkt", ID: "#0", CRange: &tail, Data: pay[4:]},
+				{Kind: "resumable_put", B: "bkt", ID: "#0", CRange: &status},
+				{Kind: "resumable_put", B: "bkt", ID: "#0", CRange: &whole, Data: pay},
+				{Kind: "get_media", B: "bkt", N: "obj"},
+				{Kind: "get_meta", B: "bkt", N: "obj"},
+			}
+			for _, mk := range stores() {
+				tasks = append(tasks, Task{mk, "bad-md5-retry", prog, true})
+			}
+		}
 	}
 	RunTasksNT(sink, tasks, histNontrivial)
+	if prop == "C10" {
+		// every patch is one atomic step: all interleavings (at the yield point between precondition
+		// check and store mutation) of a metadata patch with a second patch, a content write or a
+		// delete of the same object, compared step by step with the interleaving model
+		final := []Req{{Kind: "get_meta", B: c07B, N: "obj"}, {Kind: "get_media", B: c07B, N: "obj"}, {Kind: "list", B: c07B}}
+		type job struct {
+			mk      storeMaker
+			threads [][]Req
+			sched   []int
+			tag     string
+		}
+		var jobs []job
+		ctA, ctB := "text/pa", "text/pb"
+		patchA := Req{Kind: "patch", B: c07B, N: "obj", Patch: &Patch{CType: &ctA, HasMeta: true, Meta: [][2]string{{"a", "1"}}}, CP: noConds}
+		patchB := Req{Kind: "patch", B: c07B, N: "obj", Patch: &Patch{CType: &ctB, HasMeta: true, Meta: [][2]string{{"b", "2"}}}, CP: noConds}
+		for _, mk := range stores() {
+			for _, kb := range []int{-1, 0, 1, 3, 4, 6} {
+				rb, nb := patchB, 2
+				if kb >= 0 {
+					rb, nb = c07Request(kb, 2)
+				}
+				for _, sch := range interleavings(2, nb) {
+					jobs = append(jobs, job{mk, [][]Req{{patchA}, {rb}}, sch, fmt.Sprintf("patch-atomic-%d", kb)})
+				}
+				for _, sch := range interleavings(nb, 2) {
+					jobs = append(jobs, job{mk, [][]Req{{rb}, {patchA}}, sch, fmt.Sprintf("patch-atomic-%d", kb)})
+				}
+			}
+		}
+		results := make([]*GConcCase, len(jobs))
+		parallel(len(jobs), func(i int) {
+			results[i] = runGConc(jobs[i].mk, c07Setup(), jobs[i].threads, jobs[i].sched, final, jobs[i].tag)
+		})
+		for _, c := range results {
+			if c == nil {
+				sink.stats.Skipped++
+				continue
+			}
+			js, _ := json.Marshal(c)
+			sink.AddPreV("conc", "check_gconc", "gcase", c.pseudo(), c.coq(), js, true)
+		}
+	}
 	if prop == "C02" {
 		genUrls(sink, tier, rng) // URL forms against the model of the four unanchored patterns
 	}
